@@ -43,6 +43,7 @@ var c19UnnamedKeys = []int{0, 12, 13, 31, 32, 33, 47, 48, 55, 56, 57, 58, 59, 60
 var c19Values = []string{
 	"", "x", "peer", "a b", "one two three", `say "hi"`, `back\slash`, "a,b,c", "1.0",
 	`python_version < "3"`, "é-ü", "'single'", `"`, "provided", "x", "tests", "%d{}[]", "0", " lead", "trail ", "two  spaces",
+	"`raw`", "`", "`a b`", "$x", "-", "--flag", "*", "a/b", "C:\\dir", "100%", "~1.2", "^1", "[1,2)", "(,1.0]", "null", "true",
 }
 
 type c19Handle struct {
@@ -377,7 +378,8 @@ func (s *c19State) roundTrip(h *c19Handle) {
 	}
 }
 
-var c19Atoms = []string{"a", "b1", `"`, `\\`, "'", "=", "<", "3.7", "é", ",", "x-y", "(", "%", "$"}
+var c19Atoms = []string{"a", "b1", `"`, `\\`, "'", "=", "<", "3.7", "é", ",", "x-y", "(", "%", "$",
+	"`", "~", "!", "*", "?", "[", "]", "{", "}", "&", "+", "^", "/", ";", ">", "-", "_", ".", "0", "A", "世"}
 
 // drawValue draws either a fixed value or one composed of 1-4 words of 1-3
 // atoms each (quotes, backslashes, punctuation, non-ASCII), joined by single
